@@ -320,6 +320,9 @@ def case_signal(case):
     ts = [float(x) for x in fr.ts]
     m, n = g['tchans'], g['fchans']
     ps, tsp, fsp, bsp, bound = concretise(case, fs, ts)
+    if case.get('units'):
+        # unit-carrying arguments (MHz / kHz / mHz-per-second / ms Quantities) for the shipped families
+        ps, tsp, fsp = dict(ps, units=True), dict(tsp, units=True), dict(fsp, units=True)
     kw = call_kwargs(case, bound)
 
     # ---- reference (independent of the call below) ---------------------------------------------
@@ -620,11 +623,16 @@ def run(ctx):
         counts[box] = 0
         if ctx.tier == 'quick':
             cases = [c for g in geoms for c in box_cases(box, g, ctx.seed)]
+            if box in ('paths', 'tprof', 'fprof'):
+                # the same sub-box with unit-carrying arguments, every 4th case (every case in the thorough tier)
+                cases += [dict(c, units=True) for c in cases[::4]]
             counts[box] += len(cases)
             ctx.pmap(case_signal, cases, label=box)
         else:
             for g in geoms:
                 cases = list(box_cases(box, g, ctx.seed))
+                if box in ('paths', 'tprof', 'fprof') and g is geoms[0]:
+                    cases += [dict(c, units=True) for c in cases]
                 counts[box] += len(cases)
                 ctx.pmap(case_signal, cases, label=box)
                 if ctx.cap_hit:
